@@ -64,7 +64,7 @@ class C14(Prop):
     pkg = "hcore"
     binname = "c14"
     quick_cases = 3000
-    thorough_cases = 40000
+    thorough_cases = 20000
     shard = 250
     rule = ("random programs (<=40 ops) over a store of live handles in three modes: s = SharedString (public API), t = Cow<[Tracked]> "
             "(element type with a counting destructor, through the cfg(metrics_verif) re-export), k = Cow<[Label]> inside Key (public "
